@@ -14,6 +14,8 @@ CLAIMED = {
 }
 CLAIMED['C12'] = ('Lean proof over the module-world model (ids, two ordered registries) + correspondence run',
          'Theorems for every world/tree shape/sharing/assignment history: parameters() has no duplicates, equals first-occurrence de-duplication of the pre-order listing, contains exactly the parameters registered on reachable modules, num_params splits, setattr replaces the registration, train/eval reach exactly the descendants, Sequential order; random module programs with shared and re-assigned attributes are run on the real Module/Sequential and on the model.', '6 C12')
+CLAIMED['C08'] = ('Lean refinement proof: optimizer history model refines the published recursions + correspondence run',
+         'For every hyper-parameter setting, parameter count and history over {backward, zero_grad, step, freeze/unfreeze}: each parameter trajectory under SGD (momentum, dampening, Nesterov, weight decay, maximize), Adam, AdamW equals the left fold of the documented update over the effective gradients; frozen parameters fixed; parameters independent. The real optimizers are run on generated histories (several backward per step, steps without zero_grad, frozen parameters) and compared element-wise with the model after every event, plus in-place/dtype/shape flags.', '6 C08')
 PENDING = {}
 ALL = [f'C{i:02d}' for i in range(1, 21)]
 
